@@ -84,7 +84,7 @@ def work(job, scratch):
         sf, of = os.path.join(rdir, "spec.json"), os.path.join(rdir, "out.json")
         json.dump(spec, open(sf, "w"))
         env = dict(os.environ)
-        env["PYTHONPATH"] = "/repo:" + HERE
+        env["PYTHONPATH"] = os.environ.get("VERIF_REPO", "/repo") + ":" + HERE
         p = subprocess.Popen([sys.executable, "-m", "vf.runner_host", sf, of],
                              cwd=rdir, env=env, start_new_session=True,
                              stdout=subprocess.PIPE, stderr=subprocess.STDOUT)
@@ -110,6 +110,18 @@ def work(job, scratch):
                 + so.decode(errors="replace")[-600:]))
             continue
         ids = [u["id"] for u in spec["units"]]
+        if out.get("all_workers_dead") or out.get("dead_workers"):
+            dead = out.get("all_workers_dead") or out.get("dead_workers")
+            res["violations"].append(dict(
+                wit, mech="runner-worker-coroutine-died",
+                what=f"{len(dead)} of {spec['workers']} task wrappers ended "
+                     f"before stop() was requested: {dead[:2]}; "
+                     f"{len(out['delivered'])} of {len(ids)} outcomes "
+                     "delivered", queue_left=out.get("queue_left")))
+            res["reached"]["runner_exactly_once"] = \
+                res["reached"].get("runner_exactly_once", 0) + 1
+            if out.get("all_workers_dead"):
+                continue
         if out.get("hang"):
             allrun = all(execs.get(i, 0) >= 1 for i in ids)
             if allrun and out.get("phase") != "stopping":
